@@ -108,6 +108,11 @@ def parse_list(untagged, verb=b'LIST'):
     return out
 
 
+def is_inbox(n: str) -> bool:
+    """RFC 3501 5.1: INBOX is case-insensitive -- in US-ASCII, as every ABNF string; 'ınbox' (U+0131) is another name"""
+    return n.isascii() and n.upper() == 'INBOX'
+
+
 class Model:
     def __init__(self, names, subscribed=(), backend='dict'):
         self.names = set(names)          # existing, selectable; INBOX implicit
@@ -116,14 +121,14 @@ class Model:
 
     def parents_missing(self, n):
         parts = n.split(DELIM)
-        return any(DELIM.join(parts[:i]) not in self.names and DELIM.join(parts[:i]).upper() != 'INBOX'
+        return any(DELIM.join(parts[:i]) not in self.names and not is_inbox(DELIM.join(parts[:i]))
                    for i in range(1, len(parts)))
 
     def exists(self, n):
-        return n.upper() == 'INBOX' or n in self.names
+        return is_inbox(n) or n in self.names
 
     def create(self, n):
-        if n.upper() == 'INBOX' or n in self.names:
+        if is_inbox(n) or n in self.names:
             return b'NO'
         if self.backend != 'dict' and (self.parents_missing(n) or n.upper().startswith('INBOX' + DELIM)):
             return b'NO?'          # RFC: superiors SHOULD be created; a backend that refuses instead is accepted
@@ -131,7 +136,7 @@ class Model:
         return b'OK'
 
     def delete(self, n):
-        if n.upper() == 'INBOX' or n not in self.names:
+        if is_inbox(n) or n not in self.names:
             return b'NO'
         if self.backend == 'maildirfs' and any(m.startswith(n + DELIM) for m in self.names):
             return b'KNOWN-NO-INFERIORS'     # known finding C11-maildirfs-delete-with-inferiors (RFC 3501 6.3.4 permits the DELETE)
@@ -140,15 +145,15 @@ class Model:
 
     def rename(self, a, b):
         if not self.exists(a) and any(n.startswith(a + DELIM) for n in self.names) and not self.exists(b) \
-                and b.upper() != 'INBOX':
+                and not is_inbox(b):
             return b'NO?'          # a is only a hierarchy node (\Noselect): RFC does not say; either answer accepted
-        if b.upper() == 'INBOX' or not self.exists(a) or self.exists(b):
+        if is_inbox(b) or not self.exists(a) or self.exists(b):
             return b'NO'
         if any(n.startswith(b + DELIM) for n in self.names):
             return b'NO?'          # the target is a hierarchy node of existing names: either answer accepted
         if self.backend != 'dict' and (self.parents_missing(b) or b.startswith(a + DELIM)):
             return b'NO?'
-        if a.upper() == 'INBOX':
+        if is_inbox(a):
             if self.backend != 'dict':
                 return b'KNOWN-NO'
             self.names.add(b)
@@ -164,20 +169,20 @@ class Model:
         full = ref + pat
         # RFC 3501 5.1: the name INBOX is case-insensitive, so a pattern matches it if it matches any spelling of it
         return {n for n in self.names | {'INBOX'} if glob_match(full, n) or
-                (n == 'INBOX' and glob_match(full.upper(), 'INBOX'))}
+                (n == 'INBOX' and glob_match(''.join(ch.upper() if ch.isascii() else ch for ch in full), 'INBOX'))}
 
 
-NAMES = ['a', 'a/b', 'a/b/c', 'ab', 'B', 'inbox', 'Inbox/x', 'a*b', 'a%b', 'q"uote', 'new\nline', 'nl\n', 'é', 'a/é', 'Sent']
+NAMES = ['a', 'a/b', 'a/b/c', 'ab', 'B', 'inbox', 'ınbox', 'Inbox/x', 'a*b', 'a%b', 'q"uote', 'new\nline', 'nl\n', 'é', 'a/é', 'Sent']
 PATTERNS = [('', '*'), ('', '%'), ('', 'a*'), ('', 'a%'), ('', 'a/%'), ('', '%/%'), ('a/', '%'), ('a', '%'), ('', 'a/b'),
             ('', '*b'), ('', 'INBOX'), ('', 'inbox'), ('', 'I%'), ('a/', '*'), ('', '%b'), ('', 'ab%'), ('', 'a%b'),
             ('', '*e'), ('', '%\n%'), ('', 'é'), ('', 'S*t'), ('', 'Sent%'), ('', '%Sent'), ('', ''), ('a', ''),
             ('', 'nl'), ('', 'n%'), ('', '*l'), ('', 'new\nlin'),
-            ('', 'inbox*'), ('', 'InBo%'), ('', '%x'), ('in', 'bo%'), ('', 'i*'), ('', '*X'), ('', 'inbox/%')]
+            ('', 'inbox*'), ('', 'ınbox'), ('', 'InBo%'), ('', '%x'), ('in', 'bo%'), ('', 'i*'), ('', '*X'), ('', 'inbox/%')]
 
 
 def ops(tier):
     o = []
-    names = NAMES if tier != 'quick' else NAMES[:13]
+    names = NAMES if tier != 'quick' else NAMES[:14]
     for n in names:
         o += [('create', n), ('delete', n), ('subscribe', n), ('unsubscribe', n), ('status', n), ('append', n)]
     for a, b in [('a', 'z'), ('a', 'ab'), ('a/b', 'a/z'), ('INBOX', 'old'), ('a', 'INBOX'), ('nope', 'x'), ('a', 'a/b2'),
@@ -207,7 +212,7 @@ async def check_lists(c, model, errors, where):
                 errors.append(f'{where}: LIST {ref!r} {pat!r} returned \\Noselect {n!r} which has no inferiors')
         r = await c.cmd(b'LSUB ' + enc(ref) + b' ' + enc(pat))
         gots = {n for n, a in parse_list(r['untagged'], b'LSUB') if b'\\Noselect' not in a}
-        wants = {n for n in model.subscribed if n.upper() != 'INBOX' and model.exists(n) and glob_match(ref + pat, n)}
+        wants = {n for n in model.subscribed if not is_inbox(n) and model.exists(n) and glob_match(ref + pat, n)}
         if gots - {'INBOX'} != wants - {'INBOX'}:
             errors.append(f'{where}: LSUB {ref!r} {pat!r} returned {sorted(gots)}, subscribed names matching are {sorted(wants)}')
 
@@ -326,7 +331,7 @@ async def scenario(prog, deep_lists, backend='dict'):
                 for n in list(before):
                     if n == a or n.startswith(a + DELIM):
                         tn = b + n[len(a):]
-                        if n.upper() == 'INBOX':
+                        if is_inbox(n):
                             if after.get(tn) != before[n] or after['INBOX'][1] != 0:
                                 errors.append(f'{where}: INBOX contents did not move to {tn} leaving INBOX empty: {after.get(tn)} / {after["INBOX"]}')
                         elif after.get(tn) != before[n]:
